@@ -18,7 +18,7 @@ TOOL = 3
 class Sched:
     cur = None
 
-    def __init__(self, seed, strategy='sticky', stick=0.9, park=None, pct_depth=2, est_steps=3000, max_steps=400000):
+    def __init__(self, seed, strategy='sticky', stick=0.9, park=None, pct_depth=2, est_steps=3000, max_steps=400000, rdv=None):
         self.rng = random.Random(seed)
         self.threads = {}
         self.trace = []
@@ -32,6 +32,13 @@ class Sched:
         self.park = park              # (thread, file, line, occurrence) or None
         self.occ = 0
         self.parked = False
+        # rendezvous ((threadA, file, line, occ), (threadB, file, line, occ)): A waits at its location until B stands at its own,
+        # then A goes on first and B stays put until everybody else has finished or is blocked ("A's step happens between B's
+        # previous step and this one").  If B never gets there (it blocks on a lock A holds, say) A is released like a parked thread.
+        self.rdv = rdv
+        self.rdv_b = False
+        self.rdv_met = False
+        self.held = set()
         self.prio = {}
         self.locs = {}                # (thread, file, line) -> count
         self.tls = threading.local()
@@ -99,6 +106,10 @@ class Sched:
             # everybody else finished or is blocked: the parked thread may go on
             self.prio[self.park[0]] = 1000
             self.parked = False
+        if self.held and all(s['done'] or s['blocked'] is not None or s['name'] in self.held for s in self.threads.values()):
+            for n in self.held:
+                self.prio[n] = 900
+            self.held = set()
         nxt = self._pick(r, st)
         self.trace.append(nxt['name'])
         if nxt is st:
@@ -120,6 +131,7 @@ class Sched:
             return
         key = (st['name'], code.co_filename.rsplit('/', 1)[-1], line)
         self.locs[key] = self.locs.get(key, 0) + 1
+        self._rendezvous(st, key)
         if self.park is not None and key == tuple(self.park[:3]) and not self.parked:
             self.occ += 1
             if self.occ == self.park[3]:
@@ -136,6 +148,38 @@ class Sched:
                 if self.steps >= self.change_points[0]:
                     self._switch(st)
 
+    def _rendezvous(self, st, key):
+        if self.rdv is None:
+            return
+        a, b = self.rdv
+        n = self.locs[key]
+        if key == tuple(b[:3]) and n == b[3]:
+            self.rdv_b = True
+            self.prio[st['name']] = -200
+            self.held.add(st['name'])
+            if a[0] in self.held:
+                self.held.discard(a[0])
+                self.prio[a[0]] = 1000
+                self.rdv_met = True
+        elif key == tuple(a[:3]) and n == a[3] and not self.rdv_b:
+            self.prio[st['name']] = -100
+            self.held.add(st['name'])
+
+    def at_io(self, kind):
+        """a raw I/O call is about to be made: a location like a statement start, named (thread, 'io', call name)"""
+        st = self.me()
+        if st is None or not self.active:
+            return
+        key = (st['name'], 'io', kind)
+        self.locs[key] = self.locs.get(key, 0) + 1
+        self._rendezvous(st, key)
+        if self.park is not None and key == tuple(self.park[:3]) and not self.parked:
+            self.occ += 1
+            if self.occ == self.park[3]:
+                self.prio[st['name']] = -100
+                self.parked = True
+        self._switch(st)
+
     def block(self, st, on):
         st['blocked'] = on
         self._switch(st)
@@ -150,6 +194,13 @@ class Sched:
         self.rng.shuffle(names)
         for i, n in enumerate(names):
             self.prio[n] = i + 10
+        # The cyclic collector runs finalizers and weak reference callbacks (a Blob's removes its temporary file, a raw I/O call
+        # and so a scheduling point) in whatever thread happens to allocate, inside the scheduler's own hand-over included, and
+        # at points that differ from run to run.  Worlds are short: collect before, keep the collector off while the baton is
+        # in use, collect afterwards (so that no world's garbage is finalized inside a later one).
+        import gc
+        gc.collect()
+        gc.disable()
         Sched.cur = self
         self.active = True
         for s in self.threads.values():
@@ -157,9 +208,12 @@ class Sched:
         first = self._pick(list(self.threads.values()), None)
         self.trace.append(first['name'])
         first['sem'].release()
-        ok = self.done_evt.wait(timeout)
-        self.active = False
-        Sched.cur = None
+        try:
+            ok = self.done_evt.wait(timeout)
+        finally:
+            self.active = False
+            Sched.cur = None
+            gc.enable()
         if self.deadlock or self.livelock or not ok:
             # let stuck threads run off (they are daemons); real locks may stay held: the caller discards this world
             for s in self.threads.values():
@@ -396,7 +450,7 @@ def install(line_modules=(), io_yields=True):
         def on_io(kind, path):
             s = Sched.cur
             if s is not None:
-                s.yield_point('io')
+                s.at_io(kind)
         recfs.LOG.on_io = on_io
     if line_modules:
         mon = sys.monitoring
